@@ -196,14 +196,44 @@ Section CrashP.
   Lemma vscript_nil b : vscript W b [] = Ok [].
   Proof. reflexivity. Qed.
 
-  Theorem commit_script_correct s s' :
-    sto_commit W s = Ok s' ->
-    exists ws, commit_script W s = Ok ws /\ apply_pwrites (persistent s) ws = persistent s'.
+  (* the order in which the cache entries are committed does not matter for the result *)
+  Lemma commit_entries_perm b (es es' : kv vhist) d c d' c' :
+    NoDup (map fst es) -> Permutation.Permutation es es' -> ksorted d -> ksorted c ->
+    commit_entries W b (d, c) es = Ok (d', c') -> commit_entries W b (d, c) es' = Ok (d', c').
   Proof.
-    unfold sto_commit, t_commit, commit_script. intros Hc.
+    intros Hnd Hp Hd Hc Hce.
+    assert (Hnd' : NoDup (map fst es')).
+    { apply (Permutation.Permutation_NoDup (Permutation.Permutation_map fst Hp) Hnd). }
+    assert (Hne : forall k h, In (k, h) es' -> h <> []).
+    { intros k h Hin Hnil. apply (Permutation.Permutation_in _ (Permutation.Permutation_sym Hp)) in Hin.
+      pose proof (commit_entries_view W b es Hnd _ _ _ _ Hce k) as Hk.
+      rewrite (kv_get_nodup_in _ _ _ Hnd Hin) in Hk. destruct Hk as (l & Hl & _). subst h. discriminate. }
+    destruct (commit_entries_ok W b es' Hne (d, c)) as ([d2 c2] & Hce2).
+    rewrite Hce2. f_equal.
+    destruct (commit_entries_sorted W b _ _ _ _ _ Hd Hc Hce) as [S1 S2].
+    destruct (commit_entries_sorted W b _ _ _ _ _ Hd Hc Hce2) as [S3 S4].
+    assert (Hk : forall k, kv_get d2 k = kv_get d' k /\ kv_get c2 k = kv_get c' k).
+    { intros k. pose proof (commit_entries_view W b es Hnd _ _ _ _ Hce k) as H1.
+      pose proof (commit_entries_view W b es' Hnd' _ _ _ _ Hce2 k) as H2.
+      rewrite <- (kv_get_perm es es' k Hnd Hp) in H2.
+      destruct (kv_get es k) as [h|].
+      - destruct H1 as (l1 & Hl1 & E1 & E2). destruct H2 as (l2 & Hl2 & E3 & E4).
+        rewrite Hl1 in Hl2. injection Hl2 as <-. split; congruence.
+      - destruct H1 as [E1 E2]. destruct H2 as [E3 E4]. split; congruence. }
+    f_equal; apply ksorted_ext; try assumption; intros k; apply Hk.
+  Qed.
+
+  Theorem commit_script_ord_correct s es s' :
+    ksorted (t_db (st_t s)) -> ksorted (t_cdb (st_t s)) -> NoDup (map fst (t_cache (st_t s))) ->
+    Permutation.Permutation es (t_cache (st_t s)) ->
+    sto_commit W s = Ok s' ->
+    exists ws, commit_script_ord W s es = Ok ws /\ apply_pwrites (persistent s) ws = persistent s'.
+  Proof.
+    unfold sto_commit, t_commit, commit_script_ord. intros Hsd Hsc Hnd Hp Hc.
     destruct (commit_entries W (next_height s) (t_db (st_t s), t_cdb (st_t s)) (t_cache (st_t s)))
-      as [[d' c']| |] eqn:Hce; cbn [rbind] in Hc; try discriminate.
+      as [[d' c']| |] eqn:Hce0; cbn [rbind] in Hc; try discriminate.
     injection Hc as <-.
+    pose proof (commit_entries_perm _ _ _ _ _ _ _ Hnd (Permutation.Permutation_sym Hp) Hsd Hsc Hce0) as Hce.
     destruct (vscript_total _ _ _ _ Hce) as (v & Hv). rewrite Hv. cbn [rbind].
     eexists. split; [reflexivity|].
     rewrite apply_pwrites_cons. cbn [apply_pwrite].
@@ -214,9 +244,10 @@ Section CrashP.
                                               (puts (b_cache (st_blk s)) (p_blk (set_hash (persistent s) (puts (b_cache (st_hash s)) (p_hash (persistent s))))))))))
                 Hv) as (d2 & c2 & Hce2 & Hap).
     rewrite Hap. cbn [set_v set_raw set_blk set_hash persistent p_db p_cdb p_hash p_blk p_raw p_max] in Hce2 |- *.
-    rewrite Hce in Hce2. injection Hce2 as <- <-.
+    pose proof (eq_trans (eq_sym Hce) Hce2) as E. injection E as <- <-.
     reflexivity.
   Qed.
+
   (* ---------- block tables: ordered, last key = greatest key ---------- *)
   Definition bt_sorted (t : btable N) : Prop := ksorted (b_db t) /\ ksorted (b_cache t).
   Definition bsorted (s : store) : Prop :=
@@ -309,29 +340,33 @@ Section CrashP.
       destruct (x <=? n); [|reflexivity]. destruct (kv_get c x); reflexivity.
   Qed.
 
-  Theorem reorg_script_correct s n s' :
-    bsorted s -> sto_reorg W s n = Ok s' ->
-    exists ws, reorg_script W s n = Ok ws /\ apply_pwrites (persistent s) ws = persistent s'.
+  Theorem reorg_script_ord_correct s n t1 es1 s' :
+    bsorted s -> ksorted (t_db (st_t s)) -> ksorted (t_cdb (st_t s)) -> NoDup (map fst (t_cache (st_t s))) ->
+    reorg_keys (st_t s) n (map fst (t_cdb (st_t s)) ++ map fst (t_cache (st_t s))) = Ok t1 ->
+    Permutation.Permutation es1 (t_cache t1) ->
+    sto_reorg W s n = Ok s' ->
+    exists ws, reorg_script_ord W s n es1 = Ok ws /\ apply_pwrites (persistent s) ws = persistent s'.
   Proof.
-    intros (Hsh & Hsb & Hsr) Hr. unfold sto_reorg in Hr. unfold reorg_script.
+    intros (Hsh & Hsb & Hsr) Hsd Hsc Hnd E1 Hp Hr. unfold sto_reorg in Hr. unfold reorg_script_ord.
     destruct (W + n <? match st_max s with Some m => m | None => 0 end); [discriminate|].
-    unfold t_reorg in Hr.
-    destruct (reorg_keys (st_t s) n (map fst (t_cdb (st_t s)) ++ map fst (t_cache (st_t s)))) as [t1| |] eqn:E1;
-      cbn [rbind] in Hr |- *; try discriminate.
+    unfold t_reorg in Hr. rewrite E1 in Hr. cbn [rbind] in Hr.
     unfold t_commit in Hr.
-    destruct (commit_entries W n (t_db t1, t_cdb t1) (t_cache t1)) as [[d' c']| |] eqn:Hce;
+    destruct (commit_entries W n (t_db t1, t_cdb t1) (t_cache t1)) as [[d' c']| |] eqn:Hce0;
       cbn [rbind fst snd] in Hr; try discriminate.
     unfold sto_commit, t_commit in Hr. cbn [st_t t_clear t_cache t_db t_cdb commit_entries rbind fst snd] in Hr.
     injection Hr as <-.
+    destruct (reorg_keys_view n _ _ _ E1) as (Hd1 & Hc1 & Hnd1 & _).
+    assert (Hce : commit_entries W n (t_db t1, t_cdb t1) es1 = Ok (d', c')).
+    { apply (commit_entries_perm n (t_cache t1) es1); [apply Hnd1; exact Hnd|apply Permutation.Permutation_sym; exact Hp
+                                                      |rewrite Hd1; exact Hsd|rewrite Hc1; exact Hsc|exact Hce0]. }
     destruct (vscript_total _ _ _ _ Hce) as (v & Hv). rewrite Hv. cbn [rbind].
     eexists. split; [reflexivity|].
-    destruct (reorg_keys_view n _ _ _ E1) as (Hd1 & Hc1 & _).
     rewrite !apply_pwrites_app, apply_bputs0.
     set (P1 := set_hash (persistent s) (puts (b_cache (st_hash s)) (p_hash (persistent s)))).
     destruct (vscript_apply _ _ _ P1 Hv) as (d2 & c2 & Hce2 & Hap). rewrite Hap.
     assert (Hdc : d2 = d' /\ c2 = c').
     { subst P1. cbn [set_hash persistent p_db p_cdb] in Hce2. rewrite <- Hd1, <- Hc1 in Hce2.
-      rewrite Hce in Hce2. injection Hce2 as <- <-. split; reflexivity. }
+      pose proof (eq_trans (eq_sym Hce) Hce2) as E. injection E as <- <-. split; reflexivity. }
     destruct Hdc as [-> ->].
     rewrite (apply_bdels1 (st_blk s) n _ Hsb) by reflexivity.
     rewrite (apply_bdels2 (st_raw s) n _ Hsr) by reflexivity.
@@ -345,6 +380,7 @@ Section CrashP.
     rewrite (puts_filter_absorb _ _ n (proj1 Hsh) (proj2 Hsh)).
     reflexivity.
   Qed.
+
   (* ================= (b), (c): crashes ================= *)
 
   (* ---------- one key ---------- *)
@@ -1217,9 +1253,10 @@ Section CrashP.
     apply (bt_s _ _ (ci_raw _ _ _ CI)).
   Qed.
 
-  Theorem store_crash_in_commit_recovers s F st ws p q n :
+  Theorem store_crash_in_commit_recovers s F st es ws p q n :
     SInv W s F st -> CInv s F st -> w_dirty st = false ->
-    commit_script W s = Ok ws -> ws = p ++ q ->
+    Permutation.Permutation es (t_cache (st_t s)) ->
+    commit_script_ord W s es = Ok ws -> ws = p ++ q ->
     kv_get (b_db (st_hash s)) n <> None ->
     w_m st <= n + W ->
     (exists hc, w_hc st = Some hc /\ n <= hc) /\
@@ -1227,7 +1264,7 @@ Section CrashP.
     exists s2, engine_reorg W (reopen (apply_pwrites (persistent s) p)) n = Ok s2 /\
                Recovered s F st s2 n.
   Proof.
-    intros I CI Hclean Hcs Hpq Hn Hwin.
+    intros I CI Hclean Hperm Hcs Hpq Hn Hwin.
     assert (Hnin : In n (map fst (b_db (st_hash s)))) by (apply kv_get_in_keys; exact Hn).
     destruct (bt_db _ _ (ci_hash _ _ _ CI) n Hnin) as (hc & Ehc & Hnhc).
     destruct (ci_ord _ _ _ CI hc Ehc) as (h & Eh & Hhch).
@@ -1242,9 +1279,14 @@ Section CrashP.
     assert (Htop : top st = h) by (unfold top; rewrite Eh, Hclean; reflexivity).
     destruct F as [cur sav]. cbn [fst snd] in *.
     (* the script *)
-    unfold commit_script in Hcs.
-    destruct (vscript W (next_height s) (t_cache (st_t s))) as [v| |] eqn:Hv; cbn [rbind] in Hcs; try discriminate.
+    unfold commit_script_ord in Hcs.
+    destruct (vscript W (next_height s) es) as [v| |] eqn:Hv; cbn [rbind] in Hcs; try discriminate.
     injection Hcs as Hws.
+    assert (Hndes : NoDup (map fst es)).
+    { apply (Permutation.Permutation_NoDup
+               (Permutation.Permutation_map fst (Permutation.Permutation_sym Hperm)) (tr_nodup _ _ _ TR)). }
+    assert (Hges : forall k, kv_get es k = kv_get (t_cache (st_t s)) k).
+    { intros k. apply (kv_get_perm es _ k Hndes Hperm). }
     set (A := PFlush 3 :: bputs 0 (b_cache (st_hash s)) ++ bputs 1 (b_cache (st_blk s)) ++ bputs 2 (b_cache (st_raw s))).
     assert (HwsA : ws = A ++ v).
     { rewrite <- Hws. unfold A. cbn [app]. rewrite <- !app_assoc. reflexivity. }
@@ -1277,8 +1319,8 @@ Section CrashP.
       - left. assert (Hnv : Forall nonv p) by (apply (Forall_prefix _ _ _ _ HnonvA HA)).
         destruct (apply_nonv p Hnv (persistent s)) as [E1 E2]. unfold pcell, d'. rewrite E1, E2. reflexivity.
       - destruct (apply_nonv A HnonvA (persistent s)) as [E1 E2].
-        destruct (vscript_prefix_cells _ _ (tr_nodup _ _ _ TR) _ Hv l q Hvl (apply_pwrites (persistent s) A))
-          as (_ & Hc). specialize (Hc k). cbn zeta in Hc. rewrite E1, E2 in Hc.
+        destruct (vscript_prefix_cells _ _ Hndes _ Hv l q Hvl (apply_pwrites (persistent s) A))
+          as (_ & Hc). specialize (Hc k). cbn zeta in Hc. rewrite E1, E2, Hges in Hc.
         unfold d'. rewrite Hp, apply_pwrites_app. exact Hc. }
     assert (Hcells : forall k, exists c', c_reorg W n (pcell d' k) = Ok c' /\
                CellRepr c' (s_reorg (cur k) n) (s_reorg (cur k) n) (w_m st) (w_m st)).
@@ -1313,7 +1355,8 @@ Section CrashP.
     { clear Hclass Hwok HwokA HnonvA Hnodel. subst A.
       destruct (b_cache (st_hash s)) as [|e c0'] eqn:Ec0.
       - destruct (ci_empty _ _ _ CI Hclean Ec0) as (Et & E1 & E2).
-        rewrite Et in Hv. cbn in Hv. injection Hv as <-.
+        rewrite Et in Hperm. apply Permutation.Permutation_sym, Permutation.Permutation_nil in Hperm. subst es.
+        cbn in Hv. injection Hv as <-.
         rewrite E1, E2 in HwsA. cbn in HwsA.
         apply (Forall_prefix isflush ws p q); [rewrite HwsA; repeat constructor|exact Hpq].
       - rewrite HwsA in Hpq. cbn [bputs map app] in Hpq.
@@ -1468,11 +1511,13 @@ Section CrashP.
     split; [exact Hl1|]. split; [exact Hl2|]. exact I'.
   Qed.
 
-  Theorem store_crash_in_reorg_recovers s F st n0 ws p q n :
+  Theorem store_crash_in_reorg_recovers s F st n0 t1 es1 ws p q n :
     SInv W s F st -> CInv s F st -> w_dirty st = false ->
     engine_reorg_guard W 0 s n0 = RvDo ->
     b_get (st_hash s) n0 <> None ->
-    reorg_script W s n0 = Ok ws -> ws = p ++ q ->
+    reorg_keys (st_t s) n0 (map fst (t_cdb (st_t s)) ++ map fst (t_cache (st_t s))) = Ok t1 ->
+    Permutation.Permutation es1 (t_cache t1) ->
+    reorg_script_ord W s n0 es1 = Ok ws -> ws = p ++ q ->
     kv_get (b_db (st_hash s)) n <> None -> n <= n0 ->
     w_m st <= n + W ->
     (exists hc, w_hc st = Some hc /\ n <= hc) /\
@@ -1480,7 +1525,7 @@ Section CrashP.
     exists s2, engine_reorg W (reopen (apply_pwrites (persistent s) p)) n = Ok s2 /\
                Recovered s F st s2 n.
   Proof.
-    intros I CI Hclean Hg0 Hn0row Hrs0 Hpq Hn Hnn0 Hwin.
+    intros I CI Hclean Hg0 Hn0row E1 Hperm Hrs0 Hpq Hn Hnn0 Hwin.
     assert (Hnin : In n (map fst (b_db (st_hash s)))) by (apply kv_get_in_keys; exact Hn).
     destruct (bt_db _ _ (ci_hash _ _ _ CI) n Hnin) as (hc & Ehc & Hnhc).
     destruct (ci_ord _ _ _ CI hc Ehc) as (h & Eh & Hhch).
@@ -1498,13 +1543,16 @@ Section CrashP.
     destruct F as [cur sav]. cbn [fst snd] in *.
     set (m0 := N.min n0 hc).
     (* the script *)
-    pose proof Hrs0 as Hrs. unfold reorg_script in Hrs.
+    pose proof Hrs0 as Hrs. unfold reorg_script_ord in Hrs.
     destruct (W + n0 <? match st_max s with Some m => m | None => 0 end) eqn:Hguard; [discriminate|].
-    destruct (reorg_keys (st_t s) n0 (map fst (t_cdb (st_t s)) ++ map fst (t_cache (st_t s)))) as [t1| |] eqn:E1;
-      cbn [rbind] in Hrs; try discriminate.
-    destruct (vscript W n0 (t_cache t1)) as [v| |] eqn:Hv; cbn [rbind] in Hrs; try discriminate.
+    destruct (vscript W n0 es1) as [v| |] eqn:Hv; cbn [rbind] in Hrs; try discriminate.
     injection Hrs as Hws.
     destruct (reorg_keys_view n0 _ _ _ E1) as (Hd1 & Hc1 & Hnd1 & Hv1).
+    assert (Hndes : NoDup (map fst es1)).
+    { apply (Permutation.Permutation_NoDup
+               (Permutation.Permutation_map fst (Permutation.Permutation_sym Hperm)) (Hnd1 (tr_nodup _ _ _ TR))). }
+    assert (Hges : forall k, kv_get es1 k = kv_get (t_cache t1) k).
+    { intros k. apply (kv_get_perm es1 _ k Hndes Hperm). }
     set (c0 := b_cache (st_hash s)) in *.
     set (hash1 := b_commit (st_hash s)) in *.
     set (Y := PFlush 3 :: bputs 0 (b_cache (b_reorg hash1 n0)) ++ bputs 1 (b_cache (b_reorg (st_blk s) n0))
@@ -1546,8 +1594,8 @@ Section CrashP.
               forall k, let c := view t1 k in let K := pcell (apply_pwrites PA l) k in
                         K = crash_none c \/ crash_mid W n0 c = Ok K \/ crash_both W n0 c = Ok K).
     { intros l q' Hl PA EA1 EA2 k.
-      destruct (vscript_prefix_cells _ _ (Hnd1 (tr_nodup _ _ _ TR)) _ Hv l q' Hl PA) as (_ & Hc).
-      specialize (Hc k). cbn zeta in Hc |- *. rewrite EA1, EA2 in Hc. unfold view. rewrite Hd1, Hc1. exact Hc. }
+      destruct (vscript_prefix_cells _ _ Hndes _ Hv l q' Hl PA) as (_ & Hc).
+      specialize (Hc k). cbn zeta in Hc |- *. rewrite EA1, EA2, Hges in Hc. unfold view. rewrite Hd1, Hc1. exact Hc. }
     assert (Hclass : forall k,
                let c := view (st_t s) k in let K := pcell d' k in
                K = crash_none c \/
@@ -1714,8 +1762,10 @@ Section CrashP.
           destruct (wf_step W st (SReorg L)) as [st1|] eqn:Ewf; [|contradiction].
           destruct (store_reorg_ok W s (cur, sav) st L st1 I Ewf) as (s_r & Hsr).
           cbn [sto_step] in Hsr.
-          destruct (reorg_script_correct s L s_r
-                      (conj (bt_s _ _ BTh) (conj (bt_s _ _ BTb) (bt_s _ _ BTr))) Hsr) as (ws' & Hws' & Hap).
+          destruct (reorg_script_ord_correct s L t1 es1 s_r
+                      (conj (bt_s _ _ BTh) (conj (bt_s _ _ BTb) (bt_s _ _ BTr)))
+                      (tr_db_sorted _ _ _ TR) (tr_cdb_sorted _ _ _ TR) (tr_nodup _ _ _ TR) E1 Hperm Hsr)
+            as (ws' & Hws' & Hap).
           rewrite Hrs0 in Hws'. injection Hws' as <-.
           destruct (recovered_after_reorg s (cur, sav) st h hc L s_r I CI Hclean Eh Ehc ltac:(lia) Hnhc Hwin
                       Hn0row Hsr) as [Hrec' Hre].
@@ -1723,28 +1773,46 @@ Section CrashP.
   Qed.
 
   (* ---------- the statements over recorded traces ---------- *)
-  Theorem crun_commit_crash ops st s ws p q n :
+  Theorem crun_commit_crash ops st s es ws p q n :
     crun W wf_init st_empty ops = Some (st, s) -> w_dirty st = false ->
-    commit_script W s = Ok ws -> ws = p ++ q ->
+    Permutation.Permutation es (t_cache (st_t s)) ->
+    commit_script_ord W s es = Ok ws -> ws = p ++ q ->
     kv_get (b_db (st_hash s)) n <> None -> w_m st <= n + W ->
     exists s2, engine_reorg W (reopen (apply_pwrites (persistent s) p)) n = Ok s2 /\
                Recovered s (fs_run fs_init ops) st s2 n.
   Proof.
-    intros Hrun Hclean Hcs Hpq Hn Hwin.
+    intros Hrun Hclean Hperm Hcs Hpq Hn Hwin.
     destruct (crun_inv ops _ _ _ _ _ (SInv_init W) CInv_init Hrun) as [I CI].
-    apply (store_crash_in_commit_recovers s _ st ws p q n I CI Hclean Hcs Hpq Hn Hwin).
+    apply (store_crash_in_commit_recovers s _ st es ws p q n I CI Hclean Hperm Hcs Hpq Hn Hwin).
   Qed.
 
-  Theorem crun_reorg_crash ops st s n0 ws p q n :
+  Theorem crun_reorg_crash ops st s n0 t1 es1 ws p q n :
     crun W wf_init st_empty ops = Some (st, s) -> w_dirty st = false ->
     engine_reorg_guard W 0 s n0 = RvDo -> b_get (st_hash s) n0 <> None ->
-    reorg_script W s n0 = Ok ws -> ws = p ++ q ->
+    reorg_keys (st_t s) n0 (map fst (t_cdb (st_t s)) ++ map fst (t_cache (st_t s))) = Ok t1 ->
+    Permutation.Permutation es1 (t_cache t1) ->
+    reorg_script_ord W s n0 es1 = Ok ws -> ws = p ++ q ->
     kv_get (b_db (st_hash s)) n <> None -> n <= n0 -> w_m st <= n + W ->
     exists s2, engine_reorg W (reopen (apply_pwrites (persistent s) p)) n = Ok s2 /\
                Recovered s (fs_run fs_init ops) st s2 n.
   Proof.
-    intros Hrun Hclean Hg Hrow Hrs Hpq Hn Hnn0 Hwin.
+    intros Hrun Hclean Hg Hrow E1 Hperm Hrs Hpq Hn Hnn0 Hwin.
     destruct (crun_inv ops _ _ _ _ _ (SInv_init W) CInv_init Hrun) as [I CI].
-    apply (store_crash_in_reorg_recovers s _ st n0 ws p q n I CI Hclean Hg Hrow Hrs Hpq Hn Hnn0 Hwin).
+    apply (store_crash_in_reorg_recovers s _ st n0 t1 es1 ws p q n I CI Hclean Hg Hrow E1 Hperm Hrs Hpq Hn Hnn0 Hwin).
+  Qed.
+
+  (* the scripts exist on every clean boundary of a well-formed trace (commit and an admissible
+     reorg never panic, C01/C03), so the theorems above are not vacuous *)
+  Theorem commit_script_defined s F st :
+    SInv W s F st -> w_dirty st = false -> exists ws, commit_script W s = Ok ws.
+  Proof.
+    intros I Hclean.
+    assert (Hwf : wf_step W st SCommit = Some (mkWf (w_h st) (w_m st) (w_h st) false None)).
+    { cbn [wf_step]. rewrite Hclean. reflexivity. }
+    destruct (store_commit_ok W s F st _ I Hwf) as (s' & Hs'). cbn [sto_step] in Hs'.
+    pose proof I as [It _ _ _ _ _ _ _ _]. destruct It as (clk & sclk & TR & _).
+    destruct (commit_script_ord_correct s (t_cache (st_t s)) s' (tr_db_sorted _ _ _ TR) (tr_cdb_sorted _ _ _ TR)
+                (tr_nodup _ _ _ TR) (Permutation.Permutation_refl _) Hs') as (ws & Hws & _).
+    exists ws. exact Hws.
   Qed.
 End CrashP.
